@@ -33,6 +33,8 @@ def gen(tier, rng):
         for sd in seeds(rng, nm):
             out.append(Case("keypair", cp, [sd], ["in_domain", "seeded"]))
         out.append(Case("kp_generate", API_OF[cp], [bytes(rng.randrange(256) for _ in range(32))], ["in_domain", "api"]))
+        for sd in seeds(rng, 6):   # all-00, all-FF, single-bit seeds through the API wrapper too
+            out.append(Case("kp_generate", API_OF[cp], [sd], ["in_domain", "api", "special-seed", "crate-only"]))
         tape = bytes(rng.randrange(256) for _ in range(40))
         out.append(Case("keypair_rand", cp, [tape], ["in_domain", "scripted-rng"]))
         out.append(Case("kp_generate_rand", API_OF[cp], [tape], ["in_domain", "scripted-rng", "api"]))
